@@ -1,0 +1,35 @@
+//go:build verif
+
+package services
+
+import (
+	"context"
+
+	"github.com/go-logr/logr"
+
+	"github.com/jcmoraisjr/haproxy-ingress/pkg/controller/config"
+	convtypes "github.com/jcmoraisjr/haproxy-ingress/pkg/converters/types"
+	"github.com/jcmoraisjr/haproxy-ingress/pkg/haproxy"
+	"github.com/jcmoraisjr/haproxy-ingress/pkg/utils"
+)
+
+// VerifNewServices builds a Services holding what ReconcileIngress and reloadHAProxy use,
+// without a manager: the given instance and converter options, no leader (svcleader without
+// an elector answers isLeader() = false), a status updater that is not running.
+func VerifNewServices(cfg *config.Config, instance haproxy.Instance, converterOpt *convtypes.ConverterOptions, reloadQueue utils.QueueFacade) *Services {
+	return &Services{
+		Config:       cfg,
+		log:          logr.Discard(),
+		converterOpt: converterOpt,
+		instance:     instance,
+		metrics:      createMetrics(cfg.BucketsResponseTime),
+		reloadQueue:  reloadQueue,
+		svcleader:    &svcLeader{},
+		svcstatusing: &svcStatusIng{},
+	}
+}
+
+// VerifReloadHAProxy is what the reload queue calls.
+func (s *Services) VerifReloadHAProxy(ctx context.Context) error {
+	return s.reloadHAProxy(ctx, nil)
+}
